@@ -37,8 +37,14 @@ def val(o):
 
 
 def make_case(rng, tier):
-    kinds = ['ew', 'ew', 'bin', 'bin', 'binc', 'getitem', 'sum', 'transpose', 'reshape', 'dot', 'dotc', 'outer', 'prod', 'buffer', 'buffer']
+    kinds = ['ew', 'ew', 'bin', 'bin', 'binc', 'getitem', 'sum', 'transpose', 'reshape', 'dot', 'dotc', 'outer', 'prod', 'buffer', 'buffer', 'powbin']
     prog = gen_program(rng, maxsteps=6 if tier == 'quick' else 12, kinds=kinds)
+    if rng.random() < 0.06:
+        # a traced base raised to a traced exponent: (x*x + 1) ** (0.5*x + 1), followed by whatever the generator appends
+        n = rng.choice([2, 3])
+        prog = {'inputs': [[n]], 'steps': [{'op': 'ew', 'fn': 'pow2', 'a': 0}, {'op': 'binc', 'fn': 'add', 'a': 1, 'c': 1.0, 'side': 'r'},
+                                            {'op': 'binc', 'fn': 'mul', 'a': 0, 'c': 0.5, 'side': 'r'}, {'op': 'binc', 'fn': 'add', 'a': 3, 'c': 1.0, 'side': 'r'},
+                                            {'op': 'bin', 'fn': 'pow', 'a': 2, 'b': 4}], 'out': 5, 'out_shape': [n]}
     rec_kind = rng.choice(['nd', 'ut', 'ut'])
     D, P = rng.randint(1, 3), rng.randint(1, 2)
     rec = [mk_input(rng, s, rec_kind, D, P) for s in prog['inputs']]
@@ -141,7 +147,7 @@ def expected_ops(prog):
             args = [{'n': var2node[st['a']]}] + ([{'c': 0}] if name == 'pow' else [])
             var2node[nv] = emit(name, args)
         elif op == 'bin':
-            var2node[nv] = emit({'add': 'add', 'sub': 'sub', 'mul': 'mul', 'div': 'truediv'}[st['fn']], [{'n': var2node[st['a']]}, {'n': var2node[st['b']]}])
+            var2node[nv] = emit({'add': 'add', 'sub': 'sub', 'mul': 'mul', 'div': 'truediv', 'pow': 'pow'}[st['fn']], [{'n': var2node[st['a']]}, {'n': var2node[st['b']]}])
         elif op == 'binc':
             a = var2node[st['a']]
             fn = st['fn']
